@@ -275,28 +275,23 @@ TabInv(t) ==
 (* validation (cost independent of the text length), and the statement     *)
 (* that it equals the bitmap definitions above -- checked by the model.    *)
 (***************************************************************************)
-\* effective (zero-filled) sequence of an end table
-Filled(pos) ==
-  FoldLeft(LAMBDA acc, p : Append(acc, IF p > 0 THEN p
-                                       ELSE IF Len(acc) = 0 THEN 0 ELSE acc[Len(acc)]),
-           <<>>, pos)
+\* (constructed with SelectSeq, which TLC evaluates in linear time, so that a table of 20 000
+\* nodes costs nothing noticeable)
+Idx(n) == [j \in 1..n |-> j]
+Force(f) == SelectSeq(f, LAMBDA v : TRUE)          \* evaluate a function over 1..n into a tuple
 
-Effective(kind, pos) == IF kind = "open" THEN pos ELSE Filled(pos)
+\* 1-based indices of the nodes whose advance bit is set, ascending.  Open table: the node's
+\* position differs from its predecessor's.  End table (zero-filled): the node has an end and
+\* it differs from the most recent earlier end.
+AdvIdx(kind, pos) ==
+  IF kind = "open"
+  THEN SelectSeq(Idx(Len(pos)), LAMBDA j : j = 1 \/ pos[j - 1] # pos[j])
+  ELSE LET nz == SelectSeq(Idx(Len(pos)), LAMBDA j : pos[j] # 0)
+           am == SelectSeq(Idx(Len(nz)), LAMBDA m : m = 1 \/ pos[nz[m - 1]] # pos[nz[m]])
+       IN Force([t \in 1..Len(am) |-> nz[am[t]]])
 
-\* distinct effective positions in order of first appearance (ascending for a compact table);
-\* 0 is a position of the open table but "nothing yet" in the end table
-Uniq(kind, eff) ==
-  FoldLeft(LAMBDA acc, p :
-             IF (kind = "end" /\ p = 0) \/ (Len(acc) > 0 /\ acc[Len(acc)] = p) THEN acc
-             ELSE Append(acc, p),
-           <<>>, eff)
-
-\* URank[n + 1] = number of advance bits among opens [0, n)
-URank(kind, eff) ==
-  FoldLeft(LAMBDA acc, j :
-             Append(acc, acc[j] + (IF kind = "end" /\ eff[j] = 0 THEN 0
-                                   ELSE IF j > 1 /\ eff[j - 1] = eff[j] THEN 0 ELSE 1)),
-           <<0>>, [j \in 1..Len(eff) |-> j])
+\* the distinct positions, in node order (ascending for a compact table) = the IB bits
+UniqAt(pos, ai) == Force([m \in 1..Len(ai) |-> pos[ai[m]]])
 
 \* number of entries of the ascending sequence u that are < x (binary search)
 RECURSIVE CountBelowIn(_, _, _, _)
@@ -306,11 +301,13 @@ CountBelowIn(u, x, lo, hi) ==      \* answer lies in lo..hi
        IN IF u[mid + 1] < x THEN CountBelowIn(u, x, mid + 1, hi) ELSE CountBelowIn(u, x, lo, mid)
 CountBelow(u, x) == CountBelowIn(u, x, 0, Len(u))
 
-\* the cursor invariants of the code comments, evaluated on (uniq, urank) instead of bitmaps;
+\* the cursor invariants of the code comments, evaluated on (uniq, ai) instead of bitmaps:
+\*   Rank1(advance, n) = number of advance nodes among the first n = CountBelow(ai, n + 1)
+\*   Rank1(ib, p)      = CountBelow(uniq, p)          Select1(ib, k) = uniq[k + 1]
 \* WW is the word size of the observed implementation (64)
-ListCursorInv(uniq, urank, n, WW, c) ==
+ListCursorInv(uniq, ai, n, WW, c) ==
   /\ c.noi >= 0 /\ c.noi <= n
-  /\ c.adv = urank[c.noi + 1]
+  /\ c.adv = CountBelow(ai, c.noi + 1)
   /\ c.wi >= 0 /\ c.ob = CountBelow(uniq, WW * c.wi)
   /\ c.la # -1 => c.la >= 0 /\ c.la < Len(uniq) /\ c.lr = uniq[c.la + 1]
   /\ c.la # -1 => c.la < c.adv
@@ -318,8 +315,8 @@ ListCursorInv(uniq, urank, n, WW, c) ==
 
 \* ListCursorInv = CursorInv on every compact table whose positions all fit the bitmap
 ListFormAgrees(kind, pos, t, c) ==
-  LET eff == Effective(kind, pos)
-      u == Uniq(kind, eff)
+  LET ai == AdvIdx(kind, pos)
+      u == UniqAt(pos, ai)
   IN (t.compact /\ t.nopens > 0 /\ t.ibones = Len(u)) =>
-        (CursorInv(t, c) <=> ListCursorInv(u, URank(kind, eff), t.nopens, W, c))
+        (CursorInv(t, c) <=> ListCursorInv(u, ai, t.nopens, W, c))
 =============================================================================
